@@ -50,12 +50,20 @@ Proof.
   apply IH. congruence.
 Qed.
 
+Lemma nth_repeat_lt {A} (a d : A) (n k : nat) : (k < n)%nat -> nth k (repeat a n) d = a.
+Proof. revert k; induction n as [|n IH]; intros k Hk; [lia|]. destruct k; cbn [repeat nth]; [reflexivity | apply IH; lia]. Qed.
+
 Local Open Scope R_scope.
 Section ADUPsweep.
 Variables (stepsize : R) (junk : string -> Rvec) (dflt : @adop R).
 Variable ops : list (@adop R).
 Hypothesis scalar_inner : forall j, (j < List.length ops)%nat -> ad_inner_v (nth j ops dflt) = None.
-Definition adI (j : nat) : interp := adup_I stepsize (nth j ops dflt) junk.
+Definition adI (j : nat) : interp :=
+  let o := nth j ops dflt in
+  mk_I [("stepsize", stepsize); ("inner_stepsizes[j]", ad_inner o)]
+       [("L[i].adjoint", ad_Ladj o); ("L[j]", ad_L o); ("L[j].adjoint", ad_Ladj o);
+        ("g[j].convex_conj.proximal(stepsize * inner_stepsizes[j])", ad_prox o)]
+       [] [("ranges[j]", vzero (ad_m o))] junk.
 Definition adkey (j : nat) : nat := ad_key (nth j ops dflt).
 Definition ad_body1 : list lstmt := match adupdates_lbody with IFor b :: _ => b | _ => [] end.
 Definition ad_body2 : list lstmt := match adupdates_lbody with _ :: IFor b :: _ => b | _ => [] end.
@@ -178,5 +186,232 @@ Proof.
     + intros i Hi. rewrite Fpre by lia. apply F1; oid_neq.
     + intros s0. destruct (String.eqb_spec s0 "x") as [->|Hne]; [now right|]. left.
       destruct (Fcal s0) as [E|E]; [|contradiction]. rewrite E. apply F1; oid_neq.
+Qed.
+
+(* ---------------------------------------------------------------- reference version *)
+Definition ads_body2 : list lstmt := match adupdates_simple_lbody with _ :: IFor b :: _ => b | _ => [] end.
+Lemma ads_shapes :
+  adupdates_lbody = [IFor ad_body1; IFor ad_body2; IStmt (LCallback (RVar "x"))]
+  /\ adupdates_simple_lbody = [IFor ad_body1; IFor ads_body2].
+Proof. split; reflexivity. Qed.
+
+Lemma ads_step2 j ve le h nx log x d :
+  vget ve "x" = Some (OCaller "x") -> lget le "duals" = Some KComp ->
+  hget h (OCaller "x") = Some x -> hget h (OList "duals" j) = Some d ->
+  ad_inner_v (nth j ops dflt) = None ->
+  let o := nth j ops dflt in
+  let p := ad_prox o (ad_arg stepsize o d x) in
+  exists ve' h',
+    lexec (adI j) adkey j ads_body2 (mk_lst ve le h nx log) = Some (mk_lst ve' le h' (S (S nx)) log)
+    /\ vget ve' "x" = Some (OCaller "x")
+    /\ hget h' (OCaller "x") = Some (adup_x1 stepsize o x d)
+    /\ hget h' (OList "duals" j) = Some p
+    /\ forall c, c <> OCaller "x" -> c <> OList "duals" j -> c <> OFresh nx -> c <> OFresh (S nx) ->
+         hget h' c = hget h c.
+Proof.
+  intros Hv Hl1 Hx Hd Hs o p. subst o p. unfold adup_x1, ad_arg. rewrite Hs.
+  eexists; eexists. split.
+  - cbv [ads_body2 adupdates_simple_lbody]. unfold lexec. lsym. reflexivity.
+  - repeat split; lsym; try reflexivity.
+    intros c H1 H2 H3 H4. rewrite !hget_hset_other by assumption. reflexivity.
+Qed.
+
+Lemma ads_loop2 : forall rem j0 ve le h nx log x ds,
+  (j0 + rem = List.length ops)%nat ->
+  vget ve "x" = Some (OCaller "x") -> lget le "duals" = Some KComp ->
+  hget h (OCaller "x") = Some x -> List.length ds = rem ->
+  (forall i, (i < rem)%nat -> hget h (OList "duals" (j0 + i)) = Some (nth i ds [])) ->
+  exists ve' h' nx',
+    lfor adI adkey ads_body2 j0 rem (mk_lst ve le h nx log) = Some (mk_lst ve' le h' nx' log)
+    /\ vget ve' "x" = Some (OCaller "x")
+    /\ (let '(xf, ds', _) := ad_sweep_ref stepsize (skipn j0 ops) ds x in
+        hget h' (OCaller "x") = Some xf
+        /\ List.length ds' = rem /\ (forall i, (i < rem)%nat -> hget h' (OList "duals" (j0 + i)) = Some (nth i ds' [])))
+    /\ (forall i, (i < j0)%nat -> hget h' (OList "duals" i) = hget h (OList "duals" i)).
+Proof.
+  induction rem as [|rem IH]; intros j0 ve le h nx log x ds Hn Hv Hl1 Hx Hlen Hds.
+  - exists ve, h, nx. cbn [lfor]. destruct ds; [|discriminate]. rewrite skipn_all2 by lia. cbn [ad_sweep_ref].
+    repeat split; auto; try (intros; lia).
+  - destruct ds as [|d ds]; [discriminate|]. cbn [lfor].
+    assert (Hj0 : (j0 < List.length ops)%nat) by lia.
+    assert (Hd : hget h (OList "duals" j0) = Some d).
+    { specialize (Hds 0%nat ltac:(lia)). now rewrite Nat.add_0_r in Hds. }
+    destruct (ads_step2 j0 ve le h nx log x d Hv Hl1 Hx Hd (scalar_inner j0 Hj0)) as (ve1 & h1 & E1 & Hv1 & Hx1 & Hd1 & F1).
+    rewrite E1. cbn [obind].
+    set (o := nth j0 ops dflt) in *. set (p := ad_prox o (ad_arg stepsize o d x)) in *.
+    set (x1 := adup_x1 stepsize o x d) in *.
+    destruct (IH (S j0) ve1 le h1 (S (S nx)) log x1 ds ltac:(lia) Hv1 Hl1 Hx1 ltac:(cbn in Hlen; lia))
+      as (ve2 & h2 & nx2 & E2 & Hv2 & Hres & Fpre).
+    { intros i Hi. rewrite F1 by oid_neq. specialize (Hds (S i) ltac:(lia)).
+      now replace (j0 + S i)%nat with (S j0 + i)%nat in Hds by lia. }
+    exists ve2, h2, nx2. split; [exact E2|]. split; [exact Hv2|]. split.
+    + rewrite (skipn_nth_cons ops dflt j0) by exact Hj0. cbn [ad_sweep_ref]. fold o. fold p.
+      change (vsub x (vscal (none_ / stepsize)%num (ad_Ladj o (vsub p d)))) with x1.
+      destruct (ad_sweep_ref stepsize (skipn (S j0) ops) ds x1) as [[xf ds'] tr'].
+      destruct Hres as (Hxf & Hl' & Hds').
+      split; [exact Hxf|]. split; [cbn [List.length]; lia|].
+      intros i Hi. destruct i as [|i].
+      * rewrite Nat.add_0_r, Fpre by lia. exact Hd1.
+      * replace (j0 + S i)%nat with (S j0 + i)%nat by lia. cbn [nth]. apply Hds'. lia.
+    + intros i Hi. rewrite Fpre by lia. apply F1; oid_neq.
+Qed.
+
+(* ------------------------------------------------- whole calls: preamble + niter iterations *)
+Definition n_ops : nat := List.length ops.
+(* what the store looks like at a loop head of adupdates *)
+Definition ad_store (s : @lst R) (x : Rvec) (ds ts : list Rvec) : Prop :=
+  vget (l_venv s) "x" = Some (OCaller "x") /\ lget (l_lenv s) "duals" = Some KComp
+  /\ lget (l_lenv s) "tmp_rans" = Some KDict
+  /\ hget (l_heap s) (OCaller "x") = Some x /\ List.length ds = n_ops
+  /\ (forall i, (i < n_ops)%nat -> hget (l_heap s) (OList "duals" i) = Some (nth i ds []))
+  /\ (forall k, (k < List.length ts)%nat -> hget (l_heap s) (ODict "tmp_rans" k) = Some (nth k ts [])).
+
+Lemma ad_outer s x ds ts :
+  ad_store s x ds ts -> (forall j, (j < n_ops)%nat -> (adkey j < List.length ts)%nat) ->
+  let '(xf, ds', ts') := ad_opt_step stepsize ops (x, ds, ts) in
+  exists s', litems adI adkey n_ops adupdates_lbody s = Some s'
+    /\ ad_store s' xf ds' ts' /\ List.length ts' = List.length ts /\ l_log s' = (l_log s ++ [xf])%list.
+Proof.
+  destruct s as [ve le h nx log]. intros (Hv & Hl1 & Hl2 & Hx & Hlen & Hds & Hts) Hk. cbn [l_venv l_lenv l_heap l_log] in *.
+  destruct ads_shapes as [-> _]. unfold ad_opt_step. cbn [litems].
+  destruct (ad_loop1 n_ops 0 ve le h nx log x ds eq_refl Hv Hl1 Hx Hlen Hds) as (h1 & E1 & Hx1 & F1).
+  rewrite E1. cbn [obind]. cbn [skipn] in Hx1.
+  destruct (ad_loop2 n_ops 0 ve le h1 nx log _ ds ts eq_refl Hv Hl1 Hl2 Hx1 Hlen) as (ve2 & h2 & nx2 & E2 & Hv2 & Hres & _ & _).
+  { intros i Hi. rewrite F1 by discriminate. apply Hds, Hi. }
+  { intros k Hkk. rewrite F1 by discriminate. apply Hts, Hkk. }
+  { intros i Hi. apply Hk, Hi. }
+  rewrite E2. cbn [obind skipn] in *.
+  destruct (ad_sweep_opt stepsize ops ds ts (ad_pre stepsize ops ds x)) as [[[xf ds'] ts'] tr].
+  destruct Hres as (Hxf & Hl' & Hds' & Hlt' & Hts').
+  cbn [lexec1 resolve l_venv l_heap l_lenv l_next l_log]. rewrite Hv2. cbn [obind]. rewrite Hxf. cbn [obind litems].
+  eexists. split; [reflexivity|]. split; [|split; [exact Hlt' | reflexivity]].
+  cbn [l_venv l_lenv l_heap]. repeat split; auto. rewrite Hlt'. exact Hts'.
+Qed.
+
+Lemma ad_iterate : forall niter s x ds ts,
+  ad_store s x ds ts -> (forall j, (j < n_ops)%nat -> (adkey j < List.length ts)%nat) ->
+  exists s', liter niter (litems adI adkey n_ops adupdates_lbody) s = Some s'
+    /\ (let '(xf, ds', ts') := iter niter (ad_opt_step stepsize ops) (x, ds, ts) in ad_store s' xf ds' ts')
+    /\ l_log s' = (l_log s ++ trace (fun st => fst (fst st)) niter (ad_opt_step stepsize ops) (x, ds, ts))%list.
+Proof.
+  induction niter as [|niter IH]; intros s x ds ts Hs Hk.
+  - exists s. cbn [liter iter trace]. rewrite app_nil_r. auto.
+  - cbn [liter iter trace]. pose proof (ad_outer s x ds ts Hs Hk) as Ho.
+    destruct (ad_opt_step stepsize ops (x, ds, ts)) as [[xf ds'] ts'] eqn:Est.
+    destruct Ho as (s1 & E1 & Hs1 & Hlt & Hlog). rewrite E1. cbn [obind].
+    destruct (IH s1 xf ds' ts' Hs1 ltac:(intros j Hj; rewrite Hlt; auto)) as (s2 & E2 & Hs2 & Hlog2).
+    exists s2. split; [exact E2|]. split; [exact Hs2|]. rewrite Hlog2, Hlog, <- app_assoc. reflexivity.
+Qed.
+
+(* reference version: loop head store, outer iteration, iteration *)
+Definition ads_store (s : @lst R) (x : Rvec) (ds : list Rvec) : Prop :=
+  vget (l_venv s) "x" = Some (OCaller "x") /\ lget (l_lenv s) "duals" = Some KComp
+  /\ hget (l_heap s) (OCaller "x") = Some x /\ List.length ds = n_ops
+  /\ (forall i, (i < n_ops)%nat -> hget (l_heap s) (OList "duals" i) = Some (nth i ds [])).
+Lemma ads_outer s x ds :
+  ads_store s x ds ->
+  let '(xf, ds') := ad_ref_step stepsize ops (x, ds) in
+  exists s', litems adI adkey n_ops adupdates_simple_lbody s = Some s' /\ ads_store s' xf ds' /\ l_log s' = l_log s.
+Proof.
+  destruct s as [ve le h nx log]. intros (Hv & Hl1 & Hx & Hlen & Hds). cbn [l_venv l_lenv l_heap l_log] in *.
+  destruct ads_shapes as [_ ->]. unfold ad_ref_step. cbn [litems].
+  destruct (ad_loop1 n_ops 0 ve le h nx log x ds eq_refl Hv Hl1 Hx Hlen Hds) as (h1 & E1 & Hx1 & F1).
+  rewrite E1. cbn [obind]. cbn [skipn] in Hx1.
+  destruct (ads_loop2 n_ops 0 ve le h1 nx log _ ds eq_refl Hv Hl1 Hx1 Hlen) as (ve2 & h2 & nx2 & E2 & Hv2 & Hres & _).
+  { intros i Hi. rewrite F1 by discriminate. apply Hds, Hi. }
+  rewrite E2. cbn [obind skipn] in *.
+  destruct (ad_sweep_ref stepsize ops ds (ad_pre stepsize ops ds x)) as [[xf ds'] tr].
+  destruct Hres as (Hxf & Hl' & Hds').
+  eexists. split; [reflexivity|]. split; [|reflexivity]. cbn [l_venv l_lenv l_heap]. repeat split; auto.
+Qed.
+Lemma ads_iterate : forall niter s x ds,
+  ads_store s x ds ->
+  exists s', liter niter (litems adI adkey n_ops adupdates_simple_lbody) s = Some s'
+    /\ (let '(xf, ds') := iter niter (ad_ref_step stepsize ops) (x, ds) in ads_store s' xf ds')
+    /\ l_log s' = l_log s.
+Proof.
+  induction niter as [|niter IH]; intros s x ds Hs.
+  - exists s. cbn [liter iter]. auto.
+  - cbn [liter iter]. pose proof (ads_outer s x ds Hs) as Ho.
+    destruct (ad_ref_step stepsize ops (x, ds)) as [xf ds'] eqn:Est.
+    destruct Ho as (s1 & E1 & Hs1 & Hlog). rewrite E1. cbn [obind].
+    destruct (IH s1 xf ds' Hs1) as (s2 & E2 & Hs2 & Hlog2).
+    exists s2. split; [exact E2|]. split; [exact Hs2|]. congruence.
+Qed.
+
+(* preambles: n NEW dual objects holding zeros, one NEW temporary per distinct range *)
+Lemma nth_duals0 i : (i < n_ops)%nat -> nth i (ad_duals0 ops) [] = vzero (ad_m (nth i ops dflt)).
+Proof.
+  unfold ad_duals0, n_ops. intros Hi. rewrite (nth_indep _ [] (vzero (ad_m dflt))) by (rewrite map_length; exact Hi).
+  apply (map_nth (fun o => vzero (ad_m o))).
+Qed.
+Definition s_init (x : Rvec) : @lst R :=
+  mk_lst [("x", OCaller "x")] [] (fun o => match o with OCaller "x" => Some x | _ => None end) 0 [].
+Lemma ad_pre_ok (nkeys : nat) (x : Rvec) :
+  exists s, pexec adI adkey n_ops nkeys adupdates_lpre (s_init x) = Some s
+    /\ ad_store s x (ad_duals0 ops) (repeat (junk "tmp_rans") nkeys) /\ l_log s = [].
+Proof.
+  eexists. split; [reflexivity|]. split; [|reflexivity].
+  unfold ad_store. cbn [l_venv l_lenv l_heap]. repeat split.
+  - unfold ad_duals0. now rewrite map_length.
+  - intros i Hi. rewrite nth_duals0 by exact Hi. unfold hget. cbn -[Nat.ltb]. apply Nat.ltb_lt in Hi. rewrite Hi. reflexivity.
+  - intros k Hk. rewrite repeat_length in Hk. unfold hget. cbn -[Nat.ltb]. apply Nat.ltb_lt in Hk. rewrite Hk.
+    rewrite nth_repeat_lt by (apply Nat.ltb_lt; exact Hk). reflexivity.
+Qed.
+Lemma ads_pre_ok (nkeys : nat) (x : Rvec) :
+  exists s, pexec adI adkey n_ops nkeys adupdates_simple_lpre (s_init x) = Some s
+    /\ ads_store s x (ad_duals0 ops) /\ l_log s = [].
+Proof.
+  eexists. split; [reflexivity|]. split; [|reflexivity].
+  unfold ads_store. cbn [l_venv l_lenv l_heap]. repeat split.
+  - unfold ad_duals0. now rewrite map_length.
+  - intros i Hi. rewrite nth_duals0 by exact Hi. unfold hget. cbn -[Nat.ltb]. apply Nat.ltb_lt in Hi. rewrite Hi. reflexivity.
+Qed.
+
+(* whole calls of the two regenerated programs *)
+Lemma gen_adupdates_run (nkeys niter : nat) (x : Rvec) :
+  (forall j, (j < n_ops)%nat -> (adkey j < nkeys)%nat) ->
+  exists s, lrun adI adkey n_ops nkeys adupdates_lpre adupdates_lbody niter (s_init x) = Some s
+    /\ l_log s = ad_opt_trace stepsize ops niter (repeat (junk "tmp_rans") nkeys) x
+    /\ hget (l_heap s) (OCaller "x")
+       = Some (fst (fst (iter niter (ad_opt_step stepsize ops) (x, ad_duals0 ops, repeat (junk "tmp_rans") nkeys)))).
+Proof.
+  intros Hk. destruct (ad_pre_ok nkeys x) as (s0 & E0 & Hs0 & Hlog0).
+  destruct (ad_iterate niter s0 x _ _ Hs0 ltac:(intros j Hj; rewrite repeat_length; auto)) as (s1 & E1 & Hs1 & Hlog1).
+  exists s1. unfold lrun. rewrite E0. cbn [obind]. split; [exact E1|]. split.
+  - rewrite Hlog1, Hlog0. reflexivity.
+  - destruct (iter niter (ad_opt_step stepsize ops) (x, ad_duals0 ops, repeat (junk "tmp_rans") nkeys)) as [[xf ds'] ts'].
+    destruct Hs1 as (_ & _ & _ & Hx & _). exact Hx.
+Qed.
+Lemma gen_adupdates_simple_run (nkeys niter : nat) (x : Rvec) :
+  exists s, lrun adI adkey n_ops nkeys adupdates_simple_lpre adupdates_simple_lbody niter (s_init x) = Some s
+    /\ l_log s = [] /\ hget (l_heap s) (OCaller "x") = Some (ad_ref_run stepsize ops niter x).
+Proof.
+  destruct (ads_pre_ok nkeys x) as (s0 & E0 & Hs0 & Hlog0).
+  destruct (ads_iterate niter s0 x _ Hs0) as (s1 & E1 & Hs1 & Hlog1).
+  exists s1. unfold lrun. rewrite E0. cbn [obind]. split; [exact E1|]. split; [congruence|].
+  unfold ad_ref_run. destruct (iter niter (ad_ref_step stepsize ops) (x, ad_duals0 ops)) as [xf ds'].
+  destruct Hs1 as (_ & _ & Hx & _). exact Hx.
+Qed.
+
+(* the two REGENERATED programs, preambles included, any number of operators, any assignment of the
+   operators to the temporaries: the k-th callback of adupdates is what adupdates_simple leaves in the
+   caller's x after k+1 iterations *)
+Lemma gen_adupdates_equiv (nkeys niter k : nat) (x : Rvec) :
+  (forall j, (j < n_ops)%nat -> (adkey j < nkeys)%nat) -> (k < niter)%nat ->
+  exists so sr,
+    lrun adI adkey n_ops nkeys adupdates_lpre adupdates_lbody niter (s_init x) = Some so
+    /\ lrun adI adkey n_ops nkeys adupdates_simple_lpre adupdates_simple_lbody (S k) (s_init x) = Some sr
+    /\ List.length (l_log so) = niter
+    /\ nth_error (l_log so) k = hget (l_heap sr) (OCaller "x").
+Proof.
+  intros Hk Hlt. destruct (gen_adupdates_run nkeys niter x Hk) as (so & Eo & Hlog & _).
+  destruct (gen_adupdates_simple_run nkeys (S k) x) as (sr & Er & _ & Hx).
+  exists so, sr. split; [exact Eo|]. split; [exact Er|]. rewrite Hlog, Hx. split.
+  - unfold ad_opt_trace. apply trace_length.
+  - rewrite <- (ad_refines stepsize ops niter (repeat (junk "tmp_rans") nkeys) x) with (k := k); [|
+      unfold keys_ok; apply Forall_forall; intros o Hin; rewrite repeat_length;
+      destruct (In_nth ops o dflt Hin) as (j & Hj & <-); apply Hk, Hj | exact Hlt].
+    apply nth_error_nth'. unfold ad_opt_trace. rewrite trace_length. exact Hlt.
 Qed.
 End ADUPsweep.
